@@ -17,6 +17,7 @@ class SBytes:
         if isinstance(i, slice): return from_items(self.items[i])
         return self.items[i]
     def __add__(self, o):
+        if isinstance(o, SBytesT): return SBytesT(self.items + o.items, o.tail)
         if isinstance(o, (bytes, bytearray)): return from_items(self.items + tuple(o))
         if isinstance(o, SBytes): return from_items(self.items + o.items)
         return NotImplemented
@@ -41,6 +42,32 @@ class SBytes:
         return from_items(self.items + tuple(fill) * (n - len(self.items)))
     def rstrip(self, *a): raise EngineError('rstrip of symbolic bytes')
     def hex(self): raise EngineError('hex of symbolic bytes')
+
+class SBytesT(SBytes):
+    """known leading bytes followed by an ABSTRACT tail: a message of arbitrary length and content, identified by a
+    symbolic token.  It can be prefixed and passed on; every operation that would look inside it (length, iteration,
+    indexing, comparison) is refused, so code that is accepted with it treats the message parametrically."""
+    __slots__ = ('tail',)
+    def __init__(self, items, tail):
+        self.items = tuple(items); self.tail = tail
+    def _no(self, what): raise EngineError('%s of a message of arbitrary length' % what)
+    def __len__(self): self._no('len')
+    def __iter__(self): self._no('iteration')
+    def __bool__(self): self._no('truth value')
+    def __repr__(self): return 'SBytesT(%d+tail)' % len(self.items)
+    def __hash__(self): return id(self)
+    def __getitem__(self, i): self._no('indexing')
+    def __add__(self, o): self._no('appending to the end')
+    def __radd__(self, o):
+        if isinstance(o, SBytesT): self._no('concatenation of two abstract messages')
+        if isinstance(o, (bytes, bytearray)): return SBytesT(tuple(o) + self.items, self.tail)
+        if isinstance(o, SBytes): return SBytesT(o.items + self.items, self.tail)
+        return NotImplemented
+    def __mul__(self, n): self._no('repetition')
+    __rmul__ = __mul__
+    def __eq__(self, o): self._no('comparison')
+    def __ne__(self, o): self._no('comparison')
+    def ljust(self, *a): self._no('ljust')
 
 def from_items(items):
     items = tuple(items)
